@@ -154,7 +154,7 @@ theorem exprs_case (cfg : ScanCfg R) (c pre e post : List Nat)
     (items : List (Item R))
     (hs : Qentem.Expr.parseTop ({ readNum := cfg.readNum } : ScanCfg R) (e ++ [34]) 0 e.length = .ok items) :
     ∃ items', exprs cfg c [] (pre.length + 10) (pre.length + 10 + e.length) = .ok items' ∧
-      Qentem.Expr.RelItems (pre.length + 10) (e.length + 1) items items' := by
+      Qentem.Expr.RelItems Qentem.Expr.NoV (pre.length + 10) (e.length + 1) items items' := by
   have hrel := reloc_case c pre e post hc
   have hno : ∀ (i x : Nat), (e ++ [34])[i]? = some x → x ≠ Qentem.Expr.cBOpen := by
     intro i x hx
@@ -617,7 +617,7 @@ variable [RealLike R]
 theorem render_segs_more (cx : RCtx R) (cfg : ScanCfg R) (hg : cx.guardIndexRead = true)
     (hrn : cfg.readNum = cx.readNum) (more : List (Tag R)) (endO : Nat) (post : List Nat) :
     ∀ (segs : List Seg) (B txt : List Nat) (st : RState) (fuel : Nat),
-      cx.content = B ++ (txt ++ (printSegs segs ++ post)) → (∀ s ∈ segs, s.pathOk) → (∀ s ∈ segs, s.ok) →
+      cx.content = B ++ (txt ++ (printSegs segs ++ post)) → (∀ s ∈ segs, s.pathOk cfg.readNum) → (∀ s ∈ segs, s.ok) →
       1 ≤ fuel →
       ∃ (B2 txt2 : List Nat) (st2 : RState), cx.content = B2 ++ (txt2 ++ post) ∧
         (B2 ++ txt2).length = (B ++ txt).length + (printSegs segs).length ∧
@@ -631,7 +631,7 @@ theorem render_segs_more (cx : RCtx R) (cfg : ScanCfg R) (hg : cx.guardIndexRead
     exact ⟨B, txt, st, by simpa [printSegs] using hc, by simp [printSegs], by simp [expSegs], rfl, by simp [tagsOf, nTags]⟩
   | cons sg rest ih =>
     intro B txt st fuel hc hok hpl hf
-    have hokr : ∀ s ∈ rest, s.pathOk := fun s hs => hok s (List.mem_cons_of_mem _ hs)
+    have hokr : ∀ s ∈ rest, s.pathOk cfg.readNum := fun s hs => hok s (List.mem_cons_of_mem _ hs)
     have hplr : ∀ s ∈ rest, s.ok := fun s hs => hpl s (List.mem_cons_of_mem _ hs)
     have hsg := hok sg (List.mem_cons_self ..)
     -- one tag, then the rest
@@ -688,8 +688,8 @@ theorem render_segs_more (cx : RCtx R) (cfg : ScanCfg R) (hg : cx.guardIndexRead
       · rw [h3]; simp [expSegs, List.append_assoc]
       · simpa [tagsOf, nTags, Nat.add_assoc] using h5
     | math e =>
-      have hv := renderMath_seg cx cfg hrn st B txt e (printSegs rest ++ post)
-        (by rw [hc]; simp [printSegs, printSeg, List.append_assoc]) (hpl _ (List.mem_cons_self ..)) (Seg.scanOk_all _ _)
+      have hv := renderMath_seg cx cfg hg hrn st B txt e (printSegs rest ++ post)
+        (by rw [hc]; simp [printSegs, printSeg, List.append_assoc]) (hok _ (List.mem_cons_self ..)) (Seg.scanOk_all _ _)
       have hl : (B ++ txt ++ printSeg (.math e)).length = (B ++ txt).length + 6 + e.length + 1 := by
         simp [printSeg]; omega
       obtain ⟨B2, txt2, st2, h1, h2, h3, h4, h5⟩ := htag
@@ -756,7 +756,7 @@ theorem case_hit (cx : RCtx R) (cfg : ScanCfg R) (hrn : cfg.readNum = cx.readNum
         ({ content := cx.content, lookup := lk, readNum := cx.readNum } : Env R) (pre.length + 10) :=
       fun lk => ⟨rfl, hreloc.slice⟩
     have hlen : (specEnvT cx e 34).content.length = e.length + 1 := by simp [specEnvT]
-    have hev := fun lk => Qentem.Expr.evaluateTop_reloc (hre lk) true items0 items' (by rw [hlen]; exact hrel)
+    have hev := fun lk => Qentem.Expr.evaluateTop_reloc (hre lk) (Qentem.Expr.relLookup_noV _ _) true items0 items' (by rw [hlen]; exact hrel)
     refine ⟨Qentem.Expr.evaluateTop (specEnvT cx e 34) true items0, ?_, ?_⟩
     · simp only [evalExprs, ← hemp, h, Bool.false_eq_true, if_false, hvars, resolveVars, bind, Except.bind,
         (hev _).1]
@@ -772,7 +772,7 @@ theorem RState.ext' (a b : RState) (h1 : a.out = b.out) (h2 : a.items = b.items)
 /-- rendering the tags of the segments up to the end of the segments -/
 theorem render_segs_end (cx : RCtx R) (cfg : ScanCfg R) (hg : cx.guardIndexRead = true)
     (hrn : cfg.readNum = cx.readNum) (post : List Nat) (segs : List Seg) (B txt : List Nat) (st : RState)
-    (fuel : Nat) (hc : cx.content = B ++ (txt ++ (printSegs segs ++ post))) (hok : ∀ s ∈ segs, s.pathOk)
+    (fuel : Nat) (hc : cx.content = B ++ (txt ++ (printSegs segs ++ post))) (hok : ∀ s ∈ segs, s.pathOk cfg.readNum)
     (hpl : ∀ s ∈ segs, s.ok) (hf : 1 ≤ fuel) :
     render cx (fuel + nTags segs) (tagsOf cfg cx.content (B ++ txt).length segs) B.length
       ((B ++ txt).length + (printSegs segs).length) st = .ok (emit st (txt ++ expSegs cx segs)) := by
@@ -801,16 +801,16 @@ def expBlks (cx : RCtx R) : List Blk → List Nat
   | [] => []
   | b :: r => expBlk cx b ++ expBlks cx r
 
-def Blk.pathOk : Blk → Prop
-  | .segs l => ∀ s ∈ l, s.pathOk
-  | .ifc _ b => ∀ s ∈ b, s.pathOk
-  | .ife _ t f => (∀ s ∈ t, s.pathOk) ∧ ∀ s ∈ f, s.pathOk
+def Blk.pathOk (rn : List Nat → Option (Num R)) : Blk → Prop
+  | .segs l => ∀ s ∈ l, s.pathOk rn
+  | .ifc _ b => ∀ s ∈ b, s.pathOk rn
+  | .ife _ t f => (∀ s ∈ t, s.pathOk rn) ∧ ∀ s ∈ f, s.pathOk rn
 
 /-- rendering the `If` tag of a printed `<if case="e">body</if>` -/
 theorem renderIf_blk (cx : RCtx R) (cfg : ScanCfg R) (hg : cx.guardIndexRead = true)
     (hrn : cfg.readNum = cx.readNum) (st : RState) (B txt e : List Nat) (body : List Seg) (post : List Nat)
     (hc : cx.content = B ++ (txt ++ (printBlk (.ifc e body) ++ post)))
-    (hok : Blk.ok (.ifc e body)) (hpath : ∀ s ∈ body, s.pathOk) (fuel : Nat) (hf : nTags body + 3 ≤ fuel) :
+    (hok : Blk.ok (.ifc e body)) (hpath : ∀ s ∈ body, s.pathOk cfg.readNum) (fuel : Nat) (hf : nTags body + 3 ≤ fuel) :
     renderTag cx (fuel + 1)
       (Tag.ifT [IfCase.mk (itemsAt cfg cx.content ((B ++ txt).length + 10) ((B ++ txt).length + 10 + e.length))
           (tagsOf cfg cx.content ((B ++ txt).length + 12 + e.length) body) ((B ++ txt).length + 12 + e.length)
@@ -875,7 +875,7 @@ theorem renderIfe_blk (cx : RCtx R) (cfg : ScanCfg R) (hg : cx.guardIndexRead = 
     (hrn : cfg.readNum = cx.readNum) (st : RState) (B txt e : List Nat) (tb fb : List Seg) (post : List Nat)
     (hc : cx.content = B ++ (txt ++ (printBlk (.ife e tb fb) ++ post)))
     (hok : Blk.ok (.ife e tb fb)) (hco : Blk.caseOk cfg.readNum (.ife e tb fb))
-    (hpath : Blk.pathOk (.ife e tb fb)) (fuel : Nat) (hf : nTags tb + nTags fb + 4 ≤ fuel) :
+    (hpath : Blk.pathOk cfg.readNum (.ife e tb fb)) (fuel : Nat) (hf : nTags tb + nTags fb + 4 ≤ fuel) :
     renderTag cx (fuel + 1)
       (Tag.ifT [IfCase.mk (itemsAt cfg cx.content ((B ++ txt).length + 10) ((B ++ txt).length + 10 + e.length))
           (tagsOf cfg cx.content ((B ++ txt).length + 12 + e.length) tb) ((B ++ txt).length + 12 + e.length)
@@ -948,7 +948,7 @@ theorem rneed_pos (bs : List Blk) : 1 ≤ rneed bs := by
 theorem render_blks (cx : RCtx R) (cfg : ScanCfg R) (hg : cx.guardIndexRead = true)
     (hrn : cfg.readNum = cx.readNum) (more : List (Tag R)) (endO : Nat) (post : List Nat) :
     ∀ (bs : List Blk) (B txt : List Nat) (st : RState) (fuel : Nat),
-      cx.content = B ++ (txt ++ (printBlks bs ++ post)) → (∀ b ∈ bs, b.ok) → (∀ b ∈ bs, b.pathOk) →
+      cx.content = B ++ (txt ++ (printBlks bs ++ post)) → (∀ b ∈ bs, b.ok) → (∀ b ∈ bs, b.pathOk cfg.readNum) →
       (∀ b ∈ bs, b.caseOk cfg.readNum) → rneed bs ≤ fuel →
       ∃ (B2 txt2 : List Nat) (st2 : RState), cx.content = B2 ++ (txt2 ++ post) ∧
         (B2 ++ txt2).length = (B ++ txt).length + (printBlks bs).length ∧
@@ -965,7 +965,7 @@ theorem render_blks (cx : RCtx R) (cfg : ScanCfg R) (hg : cx.guardIndexRead = tr
     intro B txt st fuel hc hok hpath hcase hf
     have hcaser : ∀ b ∈ r, b.caseOk cfg.readNum := fun x hx => hcase x (List.mem_cons_of_mem _ hx)
     have hokr : ∀ b ∈ r, b.ok := fun x hx => hok x (List.mem_cons_of_mem _ hx)
-    have hpathr : ∀ b ∈ r, b.pathOk := fun x hx => hpath x (List.mem_cons_of_mem _ hx)
+    have hpathr : ∀ b ∈ r, b.pathOk cfg.readNum := fun x hx => hpath x (List.mem_cons_of_mem _ hx)
     have hb := hok b (List.mem_cons_self ..)
     have hbp := hpath b (List.mem_cons_self ..)
     cases b with
@@ -1035,7 +1035,7 @@ theorem render_blks (cx : RCtx R) (cfg : ScanCfg R) (hg : cx.guardIndexRead = tr
 /-- rendering the implied tags of a block template prints the documented expansion -/
 theorem renderTop_blks (cx : RCtx R) (cfg : ScanCfg R) (hg : cx.guardIndexRead = true)
     (hrn : cfg.readNum = cx.readNum) (bs : List Blk) (hc : cx.content = printBlks bs)
-    (hok : ∀ b ∈ bs, b.ok) (hpath : ∀ b ∈ bs, b.pathOk) (hcase : ∀ b ∈ bs, b.caseOk cfg.readNum)
+    (hok : ∀ b ∈ bs, b.ok) (hpath : ∀ b ∈ bs, b.pathOk cfg.readNum) (hcase : ∀ b ∈ bs, b.caseOk cfg.readNum)
     (fuel : Nat) (hf : rneed bs ≤ fuel) :
     renderTop cx (tagsOfB cfg cx.content 0 bs) (fuel + rcost bs) = .ok (expBlks cx bs) := by
   obtain ⟨B2, txt2, st2, h1, h2, h3, h4, h5⟩ := render_blks cx cfg hg hrn [] cx.content.length [] bs [] [] {} fuel
